@@ -29,6 +29,15 @@ def unknowns(rnd):
         ("vendor-leaf", [T.T_leaf("INTU.BID", "67811")]),
         ("vendor-aggregate", [T.T_open("INTU.XAGG"), T.T_leaf("INTU.A", "1"), T.T_leaf("CODE", "x"), T.T_CLOSE]),
         ("vendor-underscore", [T.T_leaf("FI.X_Y", "1")]),
+        # unknown tags whose lower-cased names are attributes of the Python classes (list methods, properties, helpers)
+        ("unknown-leaf-python-name", [T.T_leaf(rnd.choice(["COUNT", "INDEX", "COPY", "SORT", "SPEC", "GROOM", "APPEND", "ACCOUNT", "BALANCE",
+                                                           "TRANSACTIONS", "STATEMENTS", "SIGNON", "ELEMENTS", "POP", "CLEAR"]), "3")]),
+        ("unknown-aggregate-python-name", [T.T_open(rnd.choice(["EXTEND", "REVERSE", "SUBAGGREGATES", "UNSUPPORTED", "SECURITIES"])),
+                                           T.T_leaf("CODE", "1"), T.T_CLOSE]),
+        # unknown data whose text looks like a format template
+        ("unknown-leaf-template-text", [T.T_leaf("ZZNOTE", rnd.choice(['{"tier": 3}', "page {0} of {1}", "see section 3}", "{", "%s and %d", "{cls}", "100%"]))]),
+        # an unknown element named like an element that is open around it / like itself
+        ("unknown-nested-same-tag", [T.T_open("ZZSAME"), T.T_open("ZZSAME"), T.T_leaf("ZZLEAF", "x"), T.T_CLOSE, T.T_CLOSE]),
     ]
 
 
@@ -81,7 +90,7 @@ def run(ctx):
             enc = enclosing(base, p)
             kinds = unknowns(rnd)
             if quick:
-                kinds = rnd.sample(kinds, 3)
+                kinds = rnd.sample(kinds, 4)
             for kind, toks in kinds:
                 # a tag "known elsewhere" must not be defined by the enclosing aggregate
                 if enc is not None and any(t["tag"] in {a["tag"] for a in schema.get(enc, {"attrs": []})["attrs"]}
